@@ -74,6 +74,14 @@ impl VerifLocalKey {
         }
     }
 }
+impl VerifLocalKey {
+    // LocalKey::with panics when the thread-local is being / has been destroyed (C07)
+    pub fn with<F, R>(&'static self, f: F) -> R
+    where F: FnOnce(&Rc<RefCell<LocalSpanStack>>) -> R {
+        kani::assert(false, "thread_local_access_survives_teardown: LocalKey::with panics while thread-local storage is torn down; use try_with");
+        self.try_with(f).unwrap()
+    }
+}
 pub const VERIF_STACK_CAPACITY: usize = 8;
 '''
 
@@ -154,6 +162,46 @@ def prepare_scratch(work, log):
         for pos in sorted(ins, reverse=True):
             src = src[:pos] + 'pub(crate) ' + src[pos:]
         open(p, 'w').write(src)
+    # K7: fastrace-futures' adapters are compiled as a module of the fastrace crate (their source
+    # text copied verbatim except for the two `use futures_*` lines), so that the harness can use
+    # the recording stub of fastrace's private command senders.  futures-core / futures-sink are NOT
+    # linked (linking those no_std crates makes Kani's __rust_dealloc model report spurious layout
+    # mismatches); the Stream and Sink traits are re-declared with the signatures of futures 0.3.
+    fsrc = open(os.path.join(d, 'fastrace-futures/src/lib.rs')).read()
+    n1 = fsrc.count('use futures_core::Stream;')
+    n2 = fsrc.count('use futures_sink::Sink;')
+    if n1 == 1 and n2 == 1:
+        fsrc = fsrc.replace('use futures_core::Stream;', 'use crate::verif_futures_traits::Stream;').replace('use futures_sink::Sink;', 'use crate::verif_futures_traits::Sink;')
+        fsrc = fsrc.replace('#![doc = include_str!("../README.md")]', '')
+        open(os.path.join(d, 'fastrace/src/verif_futures_src.rs'), 'w').write(fsrc)
+        p = os.path.join(d, 'fastrace/src/lib.rs')
+        s = open(p).read()
+        s += """
+#[cfg(kani)]
+extern crate self as fastrace;
+#[cfg(all(kani, feature = "enable"))]
+pub mod verif_futures_traits {
+    use std::pin::Pin;
+    use std::task::{Context, Poll};
+    pub trait Stream {
+        type Item;
+        fn poll_next(self: Pin<&mut Self>, cx: &mut Context<'_>) -> Poll<Option<Self::Item>>;
+    }
+    pub trait Sink<Item> {
+        type Error;
+        fn poll_ready(self: Pin<&mut Self>, cx: &mut Context<'_>) -> Poll<Result<(), Self::Error>>;
+        fn start_send(self: Pin<&mut Self>, item: Item) -> Result<(), Self::Error>;
+        fn poll_flush(self: Pin<&mut Self>, cx: &mut Context<'_>) -> Poll<Result<(), Self::Error>>;
+        fn poll_close(self: Pin<&mut Self>, cx: &mut Context<'_>) -> Poll<Result<(), Self::Error>>;
+    }
+}
+#[cfg(all(kani, feature = "enable"))]
+pub mod verif_futures_src;
+"""
+        open(p, 'w').write(s)
+        log.append('K7 fastrace-futures/src/lib.rs copied into the fastrace crate as module verif_futures_src; Stream/Sink traits re-declared (futures 0.3 signatures) instead of linking futures-core/futures-sink')
+    else:
+        log.append('K7 NOT applied: fastrace-futures/src/lib.rs does not import Stream/Sink in the expected form (stream/sink harnesses will report undecided)')
     # K3
     for ent in specs.get('modules', []):
         p = os.path.join(d, ent['append_to'])
